@@ -1404,6 +1404,14 @@ func directed() []script {
 		{NoModel: true, Src: "directed/interrupted-release", H: []step{
 			mk("Acquire", none), mk("RTx", none), mk("Release", gArgs{F: "none", Intr: true}), mk("LWBegin", gArgs{}), mk("LWCommit", gArgs{}),
 			mk("Acquire", none), mk("RTx", none), mk("RTx", none), mk("Release", gArgs{F: "none", Intr: true}), mk("LWBegin", gArgs{}), mk("LWCommit", gArgs{})}},
+		// a release of a former lock (the duplicate of the first release) arrives while the same replica
+		// holds the lock again through another handle, i.e. under another id: it must not end that lock
+		{NoModel: true, Src: "directed/late-release-of-former-lock", H: []step{
+			mk("Acquire", none), mk("RTx", none), mk("Release", gArgs{F: "none", D: true}), mk("Open", gArgs{ID: 2}), mk("Acquire", none), mk("RTx", none),
+			mk("Dup", gArgs{K: "unhalt"}), mk("LWBegin", gArgs{}), mk("RTx", none), mk("Release", none), mk("LWBegin", gArgs{}), mk("LWCommit", gArgs{})}},
+		{NoModel: true, Src: "directed/late-release-after-expiry", H: []step{
+			mk("Acquire", gArgs{F: "none", D: true}), mk("RTx", none), mk("Release", gArgs{F: "none", D: true}), mk("Open", gArgs{ID: 2}), mk("Acquire", none),
+			mk("Dup", gArgs{K: "unhalt"}), mk("RTx", none), mk("LWBegin", gArgs{}), mk("Dup", gArgs{K: "halt"}), mk("RTx", none), mk("Release", none), mk("LWBegin", gArgs{}), mk("LWCommit", gArgs{})}},
 		{NoModel: true, Src: "directed/lagging-holder", H: []step{
 			mk("Lag", gArgs{}), mk("LWBegin", gArgs{}), mk("LWCommit", gArgs{}), mk("LagWait", gArgs{}), mk("Acquire", none), mk("RTx", none), mk("Release", none)}},
 	}
